@@ -339,6 +339,60 @@ def h_copula_fixed_dates(ctx, ndates):
               replay=rp, regions={"several_product_dates": ndates > 1})
 
 
+# ---- copula coupling: the time-step cap of each level
+
+
+def _copula_coupling_caps(caps, t1=0.8):
+    """real copula coupling (HEM x HEM, Clayton, 3x3 grid), next_level called once per cap; returns the times of the refinement the coupling
+    simulation of the last level applies to a path with a single jump at t1 (maturity 1)"""
+    import rpylib.model.levymodel.mixed.hem as HEM
+    import rpylib.model.levycopulamodel as LCM
+    import rpylib.process.coupling.couplinglevycopula as CLC
+    import rpylib.grid.spatial as GS
+    from rpylib.distribution.levycopula import ClaytonCopula
+    from rpylib.distribution.sampling import SamplingMethod
+
+    ms = [HEM.HEMModel(HEM.HEMParameters(sigma=0.1, p=0.4, eta1=20.0, eta2=25.0, intensity=3.0)) for _ in range(2)]
+    lcm = LCM.LevyCopulaModel(models=ms, copula=ClaytonCopula(theta=0.7, eta=0.3))
+    grid = GS.CTMCUniformGrid.create_from_fixed_nb_of_points(h=0.1, nb_of_points=3, dimension=2)
+    cp = CLC.CouplingProcessLevyCopula(lcm, grid, SamplingMethod.INVERSION)
+    prod = StubProduct(np.array([0.0, 1.0]), PayoffDates.STOCHASTIC)
+    for cap in caps:
+        cp.next_level(mc_paths=1, path_managers=None, product=prod, max_step_epsilon=cap)
+    sim = cp._path_coupling_simulation
+    jt = np.array([t1])
+    vals = np.array([[0.1], [0.0]])
+    out = sim.build_finer_grid(jt, vals.copy(), vals.copy())
+    return np.asarray(out[0], dtype=float)
+
+
+def replay_copula_caps(sc):
+    caps = [float(Fraction(c)) for c in sc["caps"]]
+    times = _copula_coupling_caps(caps)
+    steps = np.diff(np.concatenate(([0.0], times)))
+    bad = bool(np.any(steps > caps[-1] + 1e-12))
+    return bad, (f"copula coupling, next_level called with the caps {caps}: the last level refines a path with one jump at 0.8 to the times {np.round(times, 6).tolist()} "
+                 f"(largest step {steps.max():.6f}, cap of that level {caps[-1]})")
+
+
+def h_copula_caps(ctx):
+    """the coupled copula simulator of level l refines with the cap handed to that level's next_level (the SDE coupling shrinks the cap at
+    every level): caps 1/k1 then 1/k2 with solver-chosen k1 < k2"""
+    k1 = ctx.int("k1", 1, 2).__index__()
+    k2 = ctx.int("k2", 2, 4).__index__()
+    if k2 <= k1:
+        raise PathAbort()
+    caps = [Fraction(1, k1), Fraction(1, k2)]
+    rp = (replay_copula_caps, lambda m: {"caps": [str(c) for c in caps]})
+    V.set_context(None)  # concrete models and paths: the real coupling runs on plain numbers
+    try:
+        times = _copula_coupling_caps([float(c) for c in caps])
+    finally:
+        V.set_context(ctx)
+    steps = np.diff(np.concatenate(([0.0], times)))
+    ctx.prove("C15.copula.coupled_maxstep.each_level_refines_with_its_own_cap", bool(np.all(steps <= float(caps[-1]) + 1e-12)), info={"caps": [str(c) for c in caps]}, replay=rp)
+
+
 # ---- epsilon refinement
 
 
@@ -553,6 +607,7 @@ def harnesses(tier):
     hs = [Harness("concrete", concrete_validation, concrete=True)]
     for nd in ((1, 2) if q else (1, 2, 3)):
         hs.append(Harness(f"fixed.{nd}", h_fixed, {"ndates": nd}, max_paths=4000, batch=20))
+    hs.append(Harness("copula.coupled.caps", h_copula_caps, max_paths=50, batch=2))
     for nd in (1, 2):
         hs.append(Harness(f"copula.fixed.{nd}", h_copula_fixed_dates, {"ndates": nd}, max_paths=200, batch=3))
     for nd in (1, 2) if q else (1, 2, 3):
